@@ -94,16 +94,3 @@ func VerifDetectMultiColumn(fragments []text.TextFragment, pageWidth, pageHeight
 func (verifResolver) ResolveReference(ref core.IndirectRef) (core.Object, error) {
 	return core.Null{}, nil
 }
-
-// ---- C10: the per-page option dispatch of Text ---------------------------------------
-
-// VerifIsCharacterLevel exposes isCharacterLevel, one of the two tests behind the
-// automatic choice between reading-order and plain text assembly in Text.
-func VerifIsCharacterLevel(fragments []text.TextFragment) bool {
-	return isCharacterLevel(fragments)
-}
-
-// VerifDetectMultiColumn exposes detectMultiColumn, the other test.
-func VerifDetectMultiColumn(fragments []text.TextFragment, pageWidth, pageHeight float64) bool {
-	return detectMultiColumn(fragments, pageWidth, pageHeight)
-}
